@@ -283,37 +283,125 @@ func r18Ops(c *core.Ctx, sh *txnShape) {
 		// R18.4 handler error flows into the recorded result
 		ssax.Instrs(fn, func(ins ssa.Instruction) {
 			cl, ok := ins.(*ssa.Call)
-			if !ok || !cl.Call.IsInvoke() || cl.Call.Method.Name() != "Handle" {
+			if !ok {
 				return
 			}
 			key := tk + "." + mn + "|handler-error"
-			var errCell *ssa.Alloc
-			if cl.Referrers() != nil {
-				for _, r := range *cl.Referrers() {
-					if st, ok := r.(*ssa.Store); ok && st.Val == ssa.Value(cl) {
-						if fa, ok := st.Addr.(*ssa.FieldAddr); ok && ssax.FieldName(fa) == "Err" {
-							if a, ok := fa.X.(*ssa.Alloc); ok {
-								errCell = a
-							}
-						}
-					}
+			if cl.Call.IsInvoke() && cl.Call.Method.Name() == "Handle" {
+				cell, _ := handlerErrCell(cl)
+				recorded := cell != nil && loadedAfterAndRecorded(sh, fn, cl, cell)
+				c.Check(recorded, "R18.4", key, p.Pos(cl.Pos()), "handler error is stored into the Err of the result that is recorded",
+					fmt.Sprintf("%s: the error returned by handler.Handle does not reach the recorded OpResult.Err (a failing handler would be reported as success)", fname(fn)))
+				return
+			}
+			// the handler may be run by a helper of the transaction: the error must still reach the result this method records
+			helper := ssax.StaticCallee(cl)
+			if helper == nil || !p.InModule(helper) || helper.Blocks == nil {
+				return
+			}
+			var hcall *ssa.Call
+			ssax.Instrs(helper, func(hi ssa.Instruction) {
+				if h, ok := hi.(*ssa.Call); ok && h.Call.IsInvoke() && h.Call.Method.Name() == "Handle" {
+					hcall = h
 				}
+			})
+			if hcall == nil {
+				return
 			}
 			recorded := false
-			if errCell != nil {
-				// the same local must be what is recorded afterwards (loaded after the Handle call and passed to append/setResult)
-				for _, r := range *errCell.Referrers() {
-					if u, ok := r.(*ssa.UnOp); ok && cl.Block().Dominates(u.Block()) && u.Block() != cl.Block() || ok && u.Block() == cl.Block() && ssax.Dominates(cl, u) {
-						if flowsToRecord(sh, fn, u) {
-							recorded = true
-						}
+			why := "the helper never stores the handler's error into an OpResult.Err"
+			cell, param := handlerErrCell(hcall)
+			switch {
+			case cell != nil && loadedAfterAndRecorded(sh, helper, hcall, cell):
+				recorded = true // the helper records the result itself
+			case cell != nil && cellIsReturned(helper, hcall, cell):
+				recorded = flowsToRecord(sh, fn, cl)
+				why = "the helper returns the result with the handler's error, but the caller does not record that value"
+			case cell != nil:
+				why = fmt.Sprintf("%s stores the handler's error into its own copy of the result (a by-value parameter or local), which is neither recorded nor returned", fname(helper))
+			case param != nil:
+				// stored through a pointer parameter: the caller's cell must be what is recorded afterwards
+				idx := -1
+				for i, hp := range helper.Params {
+					if hp == param {
+						idx = i
+					}
+				}
+				why = "the helper fills the result through a pointer, but the caller does not record the pointed-to result afterwards"
+				if idx >= 0 && idx < len(cl.Call.Args) {
+					if a, ok := cl.Call.Args[idx].(*ssa.Alloc); ok {
+						recorded = loadedAfterAndRecorded(sh, fn, cl, a)
 					}
 				}
 			}
-			c.Check(recorded, "R18.4", key, p.Pos(cl.Pos()), "handler error is stored into the Err of the result that is recorded",
-				fmt.Sprintf("%s: the error returned by handler.Handle does not reach the recorded OpResult.Err (a failing handler would be reported as success)", fname(fn)))
+			c.Check(recorded, "R18.4", key, p.Pos(cl.Pos()), "handler error (through a helper) is stored into the Err of the result that is recorded",
+				fmt.Sprintf("%s: the handler runs in %s and its error does not reach the recorded OpResult.Err — %s (a failing handler would be reported as success)", fname(fn), fname(helper), why))
 		})
 	}
+}
+
+// handlerErrCell finds where the error returned by the Handle call is stored as an Err field: a local cell (Alloc), or a
+// pointer parameter.
+func handlerErrCell(cl *ssa.Call) (*ssa.Alloc, *ssa.Parameter) {
+	if cl.Referrers() == nil {
+		return nil, nil
+	}
+	for _, r := range *cl.Referrers() {
+		st, ok := r.(*ssa.Store)
+		if !ok || st.Val != ssa.Value(cl) {
+			continue
+		}
+		fa, ok := st.Addr.(*ssa.FieldAddr)
+		if !ok || ssax.FieldName(fa) != "Err" {
+			continue
+		}
+		switch x := fa.X.(type) {
+		case *ssa.Alloc:
+			return x, nil
+		case *ssa.Parameter:
+			return nil, x
+		}
+	}
+	return nil, nil
+}
+
+// loadedAfterAndRecorded: cell is loaded after the call 'after' and the loaded value is recorded.
+func loadedAfterAndRecorded(sh *txnShape, fn *ssa.Function, after *ssa.Call, cell *ssa.Alloc) bool {
+	if cell.Referrers() == nil {
+		return false
+	}
+	for _, r := range *cell.Referrers() {
+		u, ok := r.(*ssa.UnOp)
+		if !ok {
+			continue
+		}
+		if after.Block().Dominates(u.Block()) && u.Block() != after.Block() || u.Block() == after.Block() && ssax.Dominates(after, u) {
+			if flowsToRecord(sh, fn, u) {
+				return true
+			}
+		}
+	}
+	return false
+}
+
+// cellIsReturned: a load of cell after the call is a result of every return of fn.
+func cellIsReturned(fn *ssa.Function, after *ssa.Call, cell *ssa.Alloc) bool {
+	rets := ssax.Returns(fn)
+	if len(rets) == 0 {
+		return false
+	}
+	for _, r := range rets {
+		ok := false
+		for _, res := range r.Results {
+			if u, isLoad := res.(*ssa.UnOp); isLoad && u.X == ssa.Value(cell) {
+				ok = true
+			}
+		}
+		if !ok {
+			return false
+		}
+	}
+	return true
 }
 
 func pathCounts(sh *txnShape, fn *ssa.Function, kind string) (int, int) {
